@@ -557,6 +557,20 @@ func kirkDumbSequence(c *Ctx, r *Rng, steps int) {
 	var k *kirkRig
 	pan := protect(func() {
 		m := dumb.NewModel()
+		// half of the sequences start on or next to an end of the model's configured objective range (the defaults 0 / 2000,
+		// or a narrow range of its own): what the model reports there must still be what an acceptance applies (seed C04k)
+		if r.Chance(0.5) {
+			lo, hi := 0.0, 2000.0
+			if r.Chance(0.5) {
+				lo = float64(r.Intn(2000)) - 1000
+				hi = lo + float64(1+r.Intn(4))
+			}
+			init := []float64{lo, lo + 1, hi - 1, hi}[r.Intn(4)]
+			if err := m.SetParameters(parameters.Map{dumb.InitialObjectiveValue: init, dumb.MinimumObjectiveValue: lo, dumb.MaximumObjectiveValue: hi}); err != nil {
+				panic("DumbModel refuses its range parameters: " + err.Error())
+			}
+			c.Stat("dumb-model sequence starting at an end of the objective range")
+		}
 		m.Initialise(model.AsIs)
 		var p2 string
 		k, p2 = newKirkRig(dir, 1, a, m, "ObjectiveValue")
